@@ -336,6 +336,64 @@ func driveC13(o opts) error {
 		}
 		w.Count("clone/equal:run-time struct")
 	}
+	// model types of other shapes: only scalar and optional columns (no slice, no map), only collections
+	for _, shape := range []dyn.Schema{
+		{Name: "C13f", Tables: []dyn.Table{{Name: "F", IsRoot: true, Cols: []val.Col{
+			{Name: "name", K: 'a', KT: 's'}, {Name: "n", K: 'a', KT: 'i'}, {Name: "r", K: 'a', KT: 'r'}, {Name: "b", K: 'a', KT: 'b'},
+			{Name: "os", K: 'o', KT: 's'}, {Name: "oi", K: 'o', KT: 'i'}, {Name: "ob", K: 'o', KT: 'b'}, {Name: "ou", K: 'o', KT: 'u'}}}}},
+		{Name: "C13o", Tables: []dyn.Table{{Name: "F", IsRoot: true, Cols: []val.Col{{Name: "os", K: 'o', KT: 's'}}}}},
+		{Name: "C13c", Tables: []dyn.Table{{Name: "F", IsRoot: true, Cols: []val.Col{
+			{Name: "ss", K: 's', KT: 's', Max: -1}, {Name: "ms", K: 'm', KT: 's', VT: 's', Max: -1}}}}},
+	} {
+		fdb, err := shape.Build()
+		if err != nil {
+			return err
+		}
+		F := shape.Tables[0]
+		for k := 0; k < ncases; k++ {
+			r := map[string]val.Val{}
+			for _, c := range F.Cols {
+				r[c.Name] = g.Value(c, 6, 3)
+				if c.K == 'o' && k%2 == 0 {
+					r[c.Name] = val.VSome(gen.AtomN(c.KT, 1+k%5)) // a set optional: a pointer to write through
+				}
+			}
+			u := gen.UUIDn(k + 1)
+			m := fdb.Make("F", u, r)
+			before := fdb.RowMap(m, "F")
+			c := model.Clone(m)
+			if !model.Equal(m, c) {
+				goFail("clone", fmt.Sprintf("%s: Clone of %v is not Equal to it", shape.Name, before))
+				continue
+			}
+			c13MutateAll(g, fdb, F, c)
+			if !rowsEqual(fdb.RowMap(m, "F"), before) {
+				goFail("clone", fmt.Sprintf("%s: changing every field of the clone (writing through its pointers too) changed the original %v into %v", shape.Name, before, fdb.RowMap(m, "F")))
+			}
+			// through a cache: what Create is given, what Row returns and what is stored are three objects
+			tc, err := cache.NewTableCache(fdb.Model, nil, nil)
+			if err != nil {
+				return err
+			}
+			rc := tc.Table("F")
+			given := fdb.Make("F", u, r)
+			if err := rc.Create(u, given, true); err != nil {
+				goFail("clone", fmt.Sprintf("%s: Create: %v", shape.Name, err))
+				continue
+			}
+			c13MutateAll(g, fdb, F, given)
+			got := rc.Row(u)
+			if got == nil || !rowsEqual(fdb.RowMap(got, "F"), before) {
+				goFail("isolation", fmt.Sprintf("%s: changing the model handed to Create (writing through its pointers too) changed the cached row %v", shape.Name, before))
+				continue
+			}
+			c13MutateAll(g, fdb, F, got)
+			if again := rc.Row(u); again == nil || !rowsEqual(fdb.RowMap(again, "F"), before) {
+				goFail("isolation", fmt.Sprintf("%s: changing the model Row() returned (writing through its pointers too) changed the cached row %v", shape.Name, before))
+			}
+			w.Count("clone/isolation:" + shape.Name)
+		}
+	}
 	for k := 0; k < ncases*2; k++ {
 		ss := func(n int) *string { s := gen.Strn(n); return &s }
 		a := &serverdb.Database{UUID: gen.UUIDn(k), Connected: k%2 == 0, Leader: k%3 == 0, Model: serverdb.DatabaseModelClustered, Name: gen.Strn(k % 4)}
